@@ -188,13 +188,24 @@ Qed.
 Ltac des_match H :=
   match type of H with
   | context [match ?x with _ => _ end] =>
-      let E := fresh "E" in destruct x eqn:E; try discriminate H
+      lazymatch type of x with
+      | sumbool _ _ => destruct x; try discriminate H
+      | _ => let E := fresh "E" in destruct x eqn:E; try discriminate H
+      end
   end.
 
 Ltac step_inv H :=
-  unfold step, move, finish in H; cbn in H;
+  unfold step, move, finish in H;
+  cbn [mgr srv_err registered hb nexts delivering rt invs outbox t_todo inflight pending offered jobs next_id tok] in H;
   repeat des_match H;
   try (injection H as H; subst).
+
+Ltac inj :=
+  repeat match goal with
+  | H : Some _ = Some _ |- _ => injection H; clear H; intros
+  | H : RRunning _ = RRunning _ |- _ => injection H; clear H; intros
+  | H : (_, _) = (_, _) |- _ => injection H; clear H; intros
+  end; subst.
 
 (* ---------------------------------------------------------------------------------------- *)
 (* S1: exactly one "credit" circulates heartbeat -> sink -> job -> channel -> heartbeat ->
@@ -245,12 +256,6 @@ Ltac crunch :=
   | H : context [match ?x with _ => _ end] |- _ => is_var x; destruct x
   | |- context [match ?x with _ => _ end] => is_var x; destruct x
   end; cbn in *; try lia; try discriminate; try tauto.
-Ltac inj :=
-  repeat match goal with
-  | H : Some _ = Some _ |- _ => injection H as H
-  | H : RRunning _ = RRunning _ |- _ => injection H as H
-  | H : (_, _) = (_, _) |- _ => injection H as H
-  end; subst.
 Ltac easy8 := try solve [ assumption | lia | discriminate | tauto | intros; discriminate | intros; lia | eauto
   | intros; use_hyps; first [assumption | lia | tauto | eauto | congruence]
   | intros; inj; use_hyps; first [tauto | lia | intuition (try discriminate; try lia; try congruence)]
